@@ -45,9 +45,14 @@ class Monitor(object):
         self.cur = None        # (kind, params) of the case being executed
         self.internal = []     # errors of the monitor machinery itself
         self.refusals = {}     # documented refusals seen (name -> count)
+        self.recent = []       # the few cases executed before the current one
 
     # ---- workload bookkeeping -------------------------------------------
     def begin(self, kind, params):
+        if self.cur is not None:
+            self.recent.append(self.cur)
+            if len(self.recent) > 6:
+                del self.recent[0]
         self.cur = (kind, params)
 
     def cls(self, name, ident=None, sample=None):
@@ -106,6 +111,10 @@ class Monitor(object):
                 "kind": self.cur[0] if self.cur else None,
                 "params": jsonable(self.cur[1]) if self.cur else None,
                 "shard": self.shard,
+                # what the process had executed just before: a deviation that
+                # depends on call history replays only with these in front
+                "preceding": [jsonable(c) for c in self.recent
+                              if len(repr(c)) < 1500],
             })
 
     def error(self, where, exc):
